@@ -29,6 +29,13 @@ import (
 
 const foreignAddr = "other:4000"
 
+// the engine of a "seq" case with a remote listens on node0:1; lookAddr followed by
+// lookTail is that address
+const (
+	lookAddr = "node0:"
+	lookTail = "1"
+)
+
 // evWorld: one engine and its recording actors.
 type evWorld struct {
 	e        *actor.Engine
@@ -210,6 +217,10 @@ type ev12Case struct {
 	// then has an in-memory Remoter that records what it is given)
 	NPids  int     `json:"npids"`
 	Remote bool    `json:"remote"`
+	// look: the foreign twin of a/k is not (foreignAddr, a/k) but a PID whose address
+	// followed by its id spells the same string as the local one: different in both
+	// fields, and still a different PID
+	Look bool    `json:"look"`
 	Hist   [][]any `json:"hist"` // ["sub", pid, obj] | ["unsub", pid, obj] | ["ev", n] | ["stop", pid] | ["respawn", pid]
 	// conc
 	NSubs      int   `json:"nsubs"`
@@ -258,6 +269,8 @@ func runEvents12(raw json.RawMessage) (any, error) {
 			if objs[k] == nil {
 				if p < 50 {
 					objs[k] = actor.NewPID(w.e.Address(), "a/"+strconv.Itoa(p))
+				} else if c.Look {
+					objs[k] = actor.NewPID(lookAddr, lookTail+"a/"+strconv.Itoa(p-50))
 				} else {
 					objs[k] = actor.NewPID(foreignAddr, "a/"+strconv.Itoa(p-50))
 				}
@@ -306,7 +319,11 @@ func runEvents12(raw json.RawMessage) (any, error) {
 					continue
 				}
 				id := -1
-				if s, found := strings.CutPrefix(sm.to.GetID(), "a/"); found && sm.to.GetAddress() == foreignAddr {
+				fa, fp := foreignAddr, "a/"
+				if c.Look {
+					fa, fp = lookAddr, lookTail+"a/"
+				}
+				if s, found := strings.CutPrefix(sm.to.GetID(), fp); found && sm.to.GetAddress() == fa {
 					id, _ = strconv.Atoi(s)
 				}
 				if id >= 0 && id < c.NPids {
